@@ -381,13 +381,16 @@ class StorySend(MosFile):
         Merge into the :class:`RunningOrder` object provided.
         """
         try:
-            story, story_index = ro._find_story(self.story.id)
+            story, _ = ro._find_story(self.story.id)
         except ValueError:
             msg = f"{self.__class__.__name__} error in {self.message_id} - story not found"
             logger.warning(msg)
             warnings.warn(msg, StoryNotFoundWarning)
             return ro
 
+        # _find_story counts stories only; the position among all children of
+        # the running order (metadata included) is what insert_node needs
+        story_index = list(ro.base_tag).index(story)
         remove_node(parent=ro.base_tag, node=story)
         insert_node(parent=ro.base_tag, node=self.story.xml, index=story_index)
         return ro
